@@ -127,6 +127,7 @@ class TwinSemLock:
         self.procs, self.tids = procs, tids  # thread name -> proc / tid
         self.hooks = {}
         self.handle, self.name = 0, name
+        self.interruptible, self.interrupted = set(), False
 
     def _p(self, who=None):
         return self.procs[who or self.s.tname()]
@@ -158,6 +159,8 @@ class TwinSemLock:
             if self.v > 0:
                 out.append("ok")
             else:
+                if block and who in self.interruptible and not self.interrupted:
+                    out.append("interrupt")
                 if not block:
                     out.append("wouldblock")
                 elif timeout is not None:
@@ -173,6 +176,10 @@ class TwinSemLock:
             self.cnt[p] = self.cnt.get(p, 0) + 1
             self.own[p] = self.tids[self.s.tname()]
             res = True
+        elif lab == "interrupt":
+            self.interrupted = True
+            self.s.done()
+            raise KeyboardInterrupt()
         else:
             res = False
         h = self.hooks.get(("acquire", lab))
